@@ -125,6 +125,24 @@ func TestC09(t *testing.T) {
 					addErr(pr.dialOnce(side, id))
 				case "accept-nodial":
 					addErr(pr.acceptOnce(side, id, 300*time.Millisecond))
+				case "accept-twice":
+					// the same id announced twice, one after the other, inside one pending window, and
+					// nobody dials; then both windows run out
+					b := pr.hostGRPC
+					if side == "plugin" {
+						b = pr.plugGRPC
+					}
+					for i := 0; i < 2; i++ {
+						ln, err := b.Accept(id)
+						addErr(errStr(err))
+						if err == nil {
+							ln.Close()
+						}
+						if i == 0 {
+							time.Sleep(2 * time.Second)
+						}
+					}
+					time.Sleep(5500 * time.Millisecond)
 				case "dial-twice":
 					var wg sync.WaitGroup
 					for i := 0; i < 2; i++ {
